@@ -36,7 +36,11 @@ var c11sKeys = vlim.NewIPKeys(c11sV4)
 
 // c11sListener makes the accepted connections look as if they came from the table address whose id the
 // client encoded in its (loopback) source address 127.0.hi.lo: IPv6 peers without IPv6 networking.
-type c11sListener struct{ net.Listener }
+type c11sListener struct {
+	net.Listener
+	once    sync.Once
+	serving chan struct{} // closed when Serve calls Accept for the first time (= the listener is registered)
+}
 
 type c11sConn struct {
 	net.Conn
@@ -46,6 +50,7 @@ type c11sConn struct {
 func (c *c11sConn) RemoteAddr() net.Addr { return c.remote }
 
 func (l *c11sListener) Accept() (net.Conn, error) {
+	l.once.Do(func() { close(l.serving) })
 	c, err := l.Listener.Accept()
 	if err != nil {
 		return nil, err
@@ -69,11 +74,15 @@ func c11sServe(endp *Endpoint) (string, error) {
 	if err != nil {
 		return "", err
 	}
+	wl := &c11sListener{Listener: l, serving: make(chan struct{})}
 	endp.listenersWg.Add(1)
 	go func() {
-		endp.serv.Serve(&c11sListener{l}) //nolint:errcheck
+		endp.serv.Serve(wl) //nolint:errcheck
 		endp.listenersWg.Done()
 	}()
+	// go-smtp's Close only closes the listeners Serve has registered: an endpoint closed before this
+	// goroutine ran would wait for it for ever
+	<-wl.serving
 	return strconv.Itoa(l.Addr().(*net.TCPAddr).Port), nil
 }
 
@@ -178,51 +187,34 @@ func (s *c11CheckState) Close() error {
 	return nil
 }
 
-var c11PortMu sync.Mutex
-
-// c11Endpoint builds an endpoint like the package's testEndpoint, but on a port of its own and
-// without t.Fatal: the port found free can be taken by a concurrent client socket before the
-// endpoint binds it, in which case another port is tried.
+// c11Endpoint builds an endpoint like the package's testEndpoint, but without a listener of its own (no
+// address: the cases talk to it through c11sServe, which picks a free port itself) and without t.Fatal.
 func c11Endpoint(t *testing.T, tgt module.DeliveryTarget, chk module.Check, nodes []config.Node) (*Endpoint, string, error) {
-	c11PortMu.Lock()
-	defer c11PortMu.Unlock()
-	var lastErr error
-	for try := 0; try < 50; try++ {
-		l, err := net.Listen("tcp", "127.0.0.1:0")
-		if err != nil {
-			lastErr = err
-			continue
-		}
-		port := strconv.Itoa(l.Addr().(*net.TCPAddr).Port)
-		l.Close()
-		mod, err := New("smtp", []string{"tcp://127.0.0.1:" + port})
-		if err != nil {
-			return nil, "", err
-		}
-		endp := mod.(*Endpoint)
-		endp.resolver = &mockdns.Resolver{Zones: map[string]mockdns.Zone{
-			"mx.example.org.":         {A: []string{"127.0.0.1"}},
-			"1.0.0.127.in-addr.arpa.": {PTR: []string{"mx.example.org"}},
-		}}
-		endp.Log = testutils.Logger(t, "smtp")
-		cfg := append(append([]config.Node{}, nodes...),
-			config.Node{Name: "hostname", Args: []string{"mx.example.com"}},
-			config.Node{Name: "tls", Args: []string{"off"}},
-			config.Node{Name: "deliver_to", Args: []string{"dummy"}},
-		)
-		if err := endp.Init(config.NewMap(nil, config.Node{Children: cfg})); err != nil {
-			lastErr = err
-			continue
-		}
-		endp.saslAuth = auth.SASLAuth{Log: testutils.Logger(t, "smtp/saslauth"), Plain: []module.PlainAuth{nil}}
-		endp.pipeline = msgpipeline.Mock(tgt, []module.Check{chk})
-		endp.pipeline.Hostname = "mx.example.com"
-		endp.pipeline.Resolver = endp.resolver
-		endp.pipeline.FirstPipeline = true
-		endp.pipeline.Log = testutils.Logger(t, "smtp/pipeline")
-		return endp, port, nil
+	mod, err := New("smtp", nil)
+	if err != nil {
+		return nil, "", err
 	}
-	return nil, "", lastErr
+	endp := mod.(*Endpoint)
+	endp.resolver = &mockdns.Resolver{Zones: map[string]mockdns.Zone{
+		"mx.example.org.":         {A: []string{"127.0.0.1"}},
+		"1.0.0.127.in-addr.arpa.": {PTR: []string{"mx.example.org"}},
+	}}
+	endp.Log = testutils.Logger(t, "smtp")
+	cfg := append(append([]config.Node{}, nodes...),
+		config.Node{Name: "hostname", Args: []string{"mx.example.com"}},
+		config.Node{Name: "tls", Args: []string{"off"}},
+		config.Node{Name: "deliver_to", Args: []string{"dummy"}},
+	)
+	if err := endp.Init(config.NewMap(nil, config.Node{Children: cfg})); err != nil {
+		return nil, "", err
+	}
+	endp.saslAuth = auth.SASLAuth{Log: testutils.Logger(t, "smtp/saslauth"), Plain: []module.PlainAuth{nil}}
+	endp.pipeline = msgpipeline.Mock(tgt, []module.Check{chk})
+	endp.pipeline.Hostname = "mx.example.com"
+	endp.pipeline.Resolver = endp.resolver
+	endp.pipeline.FirstPipeline = true
+	endp.pipeline.Log = testutils.Logger(t, "smtp/pipeline")
+	return endp, "", nil
 }
 
 type c11Client struct {
